@@ -142,7 +142,7 @@ unsafe fn tracked_alloc(layout: Layout) -> *mut u8 {
     std::ptr::write_bytes(base, GUARD_BYTE, total);
     std::ptr::write_bytes(base.add(pre), POISON_NEW, size);
     let data = base as usize + pre;
-    ST.with(|s| {
+    let tracked = ST.with(|s| {
         let recs = &mut *s.recs.get();
         // find a free slot, else recycle the oldest quarantined one
         let mut idx = recs.iter().position(|r| r.state == 0);
@@ -162,8 +162,14 @@ unsafe fn tracked_alloc(layout: Layout) -> *mut u8 {
             c.live += 1;
             c.live_bytes += size as u64;
         }
-        // table full of live blocks: block stays untracked-but-guarded (never happens with <= 3 vectors)
+        idx.is_some()
     });
+    if !tracked {
+        // table full of live blocks (never happens with <= 3 vectors): an ordinary, unmonitored block
+        // - a guarded block that is not in the table could not be recognised when it is freed
+        System.dealloc(base, Layout::from_size_align_unchecked(total, g));
+        return System.alloc(layout);
+    }
     data as *mut u8
 }
 
